@@ -83,8 +83,9 @@ Definition lim_usable (o : option limit) : option Z :=
 Fixpoint invertible_from (ref : Z) (segs : list lseg) : bool :=
   match segs with
   | s0 :: ((s1 :: _) as rest) =>
-    if ref * num s1 <? 0 then false else
-    let ref' := if num s1 =? 0 then ref else num s1 in
+    (* since the fix commit: the sign of the slope num / den is that of num * den *)
+    if ref * (num s1 * den s1) <? 0 then false else
+    let ref' := if num s1 =? 0 then ref else num s1 * den s1 in
     match lim_usable (shi s0), lim_usable (slo s1) with
     | Some x, Some x' =>
       if negb (x =? x') then false
@@ -95,7 +96,7 @@ Fixpoint invertible_from (ref : Z) (segs : list lseg) : bool :=
   | _ => true
   end.
 Definition invertible (segs : list lseg) : bool :=
-  match segs with [] => true | s :: _ => invertible_from (num s) segs end.
+  match segs with [] => true | s :: _ => invertible_from (num s * den s) segs end.
 
 (* ---------- text tables ---------- *)
 Record tscale := mkT { tlo : option limit; thi : option limit; tconst : option (list Z); tinv : option Z }.
